@@ -21,7 +21,7 @@ import ast
 import itertools
 from typing import Dict, List, Optional, Set, Tuple
 
-from ..absint import CORE_CLASSES, DT, NONE, Cls, Const, Inst, Interp, Raised, Tup, _Break, _Continue, _Return, value_of_tag
+from ..absint import CORE_CLASSES, DT, NONE, Cls, Const, Inst, Interp, Opaque, Raised, Tup, _Break, _Continue, _Return, value_of_tag
 from ..core import AnalysisError, short
 
 CORE_TAGS = ["NoneType", "bool", "int", "float", "complex", "str", "bytes", "date", "datetime",
@@ -75,13 +75,30 @@ class Automaton:
         self.prog = prog
         self.tags = tags
         self.I = Interp(prog)
+        self.outer = None
         self.f = prog.func("typing.infer_dtype")
         body = [s for s in self.f.body if not (isinstance(s, ast.Expr) and isinstance(s.value, ast.Constant))]
         loops = [s for s in body if isinstance(s, ast.For)]
+        p = self.f.params[0]
+        if not loops:
+            # the scan lives in a private helper that receives the values: the automaton is the helper's loop, and its result
+            # is handed back to infer_dtype (evaluated with the helper call answered by that result)
+            from ..symx import baseline_functions
+            cands = []
+            for c in prog.calls_in(self.f):
+                kind, tgt = prog.resolve_call(self.f, c)
+                if tgt is not None and tgt.qualname not in baseline_functions() and len(c.args) >= 1 \
+                        and isinstance(c.args[0], ast.Name) and c.args[0].id == p and not c.keywords and len(c.args) == 1:
+                    cands.append(tgt)
+            if len(cands) == 1:
+                self.outer = self.f
+                self.f = cands[0]
+                body = [s for s in self.f.body if not (isinstance(s, ast.Expr) and isinstance(s.value, ast.Constant))]
+                loops = [s for s in body if isinstance(s, ast.For)]
+                p = self.f.params[0]
         if len(loops) != 1:
             raise AnalysisError("infer_dtype: expected exactly one top-level loop over the values")
         self.loop = loops[0]
-        p = self.f.params[0]
         if not (isinstance(self.loop.iter, ast.Name) and self.loop.iter.id == p and isinstance(self.loop.target, ast.Name)):
             raise AnalysisError(f"infer_dtype: the loop does not range over the parameter `{p}` directly "
                                 f"(`{short(self.loop.iter)}`): slicing/reordering of the input is outside the automaton model")
@@ -90,7 +107,7 @@ class Automaton:
         i = body.index(self.loop)
         self.pre, self.post = body[:i], body[i + 1:]
         self.var = self.loop.target.id
-        env = {"__module__": "typing"}
+        env = {"__module__": self.f.module}
         self._run(self.pre, env)
         self.start = self._freeze(env)
         self._delta: Dict[Tuple, Tuple] = {}
@@ -130,14 +147,25 @@ class Automaton:
             return self._post[s]
         env = dict(s)
         if "__returned__" in env:
-            self._post[s] = env["__returned__"]
-            return env["__returned__"]
-        env["__module__"] = "typing"
-        try:
-            self._run(self.post, env)
-            r = NONE
-        except _Return as rr:
-            r = rr.value
+            r = env["__returned__"]
+        else:
+            env["__module__"] = self.f.module
+            try:
+                self._run(self.post, env)
+                r = NONE
+            except _Return as rr:
+                r = rr.value
+        if self.outer is not None:
+            # hand the helper's result back to infer_dtype
+            q = self.f.qualname
+            self.I.hooks[q] = lambda interp, recv, args, kw, _r=r: _r
+            try:
+                kind, val = self.I.call(self.outer.qualname, [Opaque("values")])
+            finally:
+                self.I.hooks.pop(q, None)
+            if kind != "return":
+                raise AnalysisError(f"infer_dtype raises {val} after its scan helper returned {r!r}")
+            r = val
         self._post[s] = r
         return r
 
